@@ -205,12 +205,22 @@ def write_evidence(pid, tier, seed, level, ctx, t0, new, known, extra=None):
     return path
 
 
+_SHARED_PROGS = {}
+
+
 def run_property(pid, tier="quick", seed=0, root=None, write=True, quiet=False):
     """Run all rules of one property; returns (exit_code, ctx, new_findings, known_findings)."""
     t0 = time.time()
     mod = importlib.import_module("rkverif.rules.%s" % pid.lower())
     level = getattr(mod, "LEVEL", "other")
-    prog = Program(root)
+    # developer tools that run all properties on one scratch tree in one process may share the parsed program (rules only read it)
+    if os.environ.get("RKVERIF_SHARE_PROG") == "1":
+        key = os.path.abspath(root) if root else "<default>"
+        prog = _SHARED_PROGS.get(key)
+        if prog is None:
+            prog = _SHARED_PROGS[key] = Program(root)
+    else:
+        prog = Program(root)
     ctx = Ctx(prog, pid, tier, seed)
     ctx.run_rules(mod)
     known_tab = {(k["property"], k["key"]): k for k in load_known() if k.get("status") == "known"}
